@@ -45,6 +45,23 @@ CHECKS = {
             "benchmark files), the zoo and accepted token mutants is round-tripped under both generator settings.",
             "Neutral form covers every slot except coord.",
             "DESIGN.md section 2, C07"),
+    "C11": ("exploration",
+            "position monitor: the layout stage records the true (file, line, column) of every token; the lock-step "
+            "matcher pairs AST nodes with model nodes whose token spans are known; ParseError locations checked against "
+            "injected illegal characters and single-token mutants",
+            "Every coordinate of every node of every generated program under whitespace/linemarker layouts must be a "
+            "token start inside the paired construct (exact token for identifiers, constants, declared names, "
+            "enumerators); illegal-character errors must name exactly the injected character.",
+            "Abstract TypeDecl and FileAST legitimately have no coordinate; DeclList takes the 'for' token (pinned by the suite).",
+            "DESIGN.md section 2, C11"),
+    "C17": ("exploration",
+            "metamorphic re-layout monitor: one token sequence under many layouts (whitespace, minimal spacing, "
+            "linemarkers/#line between arbitrary tokens) and one model under three parenthesisations must give the "
+            "same neutral form and the same regenerated text",
+            "Token sequences from the model generators and the re-tokenised corpus x 5-10 layout variants each; "
+            "parenthesisation variants come from the model renderer so the tree is the same by construction.",
+            "#pragma lines stay on a line of their own; adjacency decided by the reference lexer.",
+            "DESIGN.md section 2, C17"),
     "C12": ("exploration",
             "history monitor: every call on a used CParser/CLexer/CGenerator instance compared with a fresh instance "
             "(with-coordinates neutral form, exception type+message, object-identity sharing)",
